@@ -149,3 +149,97 @@ func c06R5(h H) {
 	}
 	r.Check(bad == "", "R5", "httpserver.makeTLSConfig/every-site-checked", fn.Pos(), "the TLS/plaintext and same-name compatibility checks see every site of the listener", fmt.Sprintf("%d evaluations", nrun), bad)
 }
+
+// c06R6: two sites that answer the same SNI name on one listener are compared before one replaces the other.  The
+// catch-all has three spellings — the empty host, 0.0.0.0 and :: — and all of them are filed under one key; the
+// compatibility check has to look the earlier config up under that same key, or a catch-all site with a client
+// certificate policy is silently replaced by one without.  MakeTLSConfig is evaluated (E10; buildStandardTLSConfig
+// and assertConfigsCompatible are oracles, the latter recording what it is shown) on every ordered pair of catch-all
+// spellings, on a repeated host name and on two different ones.
+func c06R6(h H) {
+	r := h.r
+	r.Rule("R6", "same-name sites are compared whatever the spelling, as a table (E10) of MakeTLSConfig over ordered pairs of host names {\"\", 0.0.0.0, ::, a.example, b.example}: assertConfigsCompatible is called with the two configs exactly when they answer the same SNI name — equal names, or two spellings of the catch-all — and its error is returned", 1)
+	fn := h.fn("R6", "caskettls", "MakeTLSConfig")
+	if fn == nil {
+		return
+	}
+	sl, ok := underlying(fn.Params[0].Type()).(*types.Slice)
+	if !ok {
+		r.Unresolve("R6", "MakeTLSConfig: parameter is not a slice")
+		return
+	}
+	cfgT := derefType(sl.Elem())
+	names := []string{"", "0.0.0.0", "::", "a.example", "b.example"}
+	catchAll := map[string]bool{"": true, "0.0.0.0": true, "::": true}
+	bad, n := "", 0
+	for _, h1 := range names {
+		for _, h2 := range names {
+			for _, refuse := range []bool{false, true} {
+				mk := func(name, host string) *aobj {
+					o := &aobj{name: name, typ: cfgT, f: map[string]aval{"Hostname": astr(host), "Enabled": abool(false)}}
+					o.in = func(o *aobj, path string, t types.Type) aval { return aunk{"config field " + path} }
+					return o
+				}
+				a, b := mk("first config", h1), mk("second config", h2)
+				compared := 0
+				wrong := ""
+				env := &absEnv{globals: map[string]*aobj{}, noFork: true, maxSteps: 100000}
+				env.ext = func(callee string, args []aval) (aval, bool) {
+					switch {
+					case strings.HasSuffix(callee, "Config).buildStandardTLSConfig"):
+						return anil{}, true
+					case strings.HasSuffix(callee, "caskettls.assertConfigsCompatible"):
+						compared++
+						p1, _ := args[0].(aptr)
+						p2, _ := args[1].(aptr)
+						if !((p1.obj == a && p2.obj == b) || (p1.obj == b && p2.obj == a)) {
+							wrong = "compares " + describeAval(args[0]) + " with " + describeAval(args[1])
+						}
+						if refuse {
+							return aiface{aptr{&aobj{name: "incompatible", typ: types.Typ[types.Int], f: map[string]aval{}}, ""}, types.Typ[types.Int]}, true
+						}
+						return anil{}, true
+					case callee == "fmt.Errorf":
+						return aiface{aptr{&aobj{name: "wrapped error", typ: types.Typ[types.Int], f: map[string]aval{}}, ""}, types.Typ[types.Int]}, true
+					}
+					return nil, false
+				}
+				res, und := env.run(fn, []aval{newVals([]aval{aptr{a, ""}, aptr{b, ""}}, sl.Elem())})
+				n++
+				desc := fmt.Sprintf("sites %q and %q on one listener", h1, h2)
+				same := h1 == h2 || (catchAll[h1] && catchAll[h2])
+				tp, okT := res.(atuple)
+				switch {
+				case und != "":
+					bad = desc + ": undecided — " + und
+				case !okT || len(tp) != 2:
+					bad = desc + ": returns " + describeAval(res)
+				case wrong != "":
+					bad = desc + ": " + wrong
+				case same && compared != 1:
+					bad = fmt.Sprintf("%s: both answer the same SNI name and are compared %d times — the later one replaces the earlier without a check", desc, compared)
+				case !same && compared != 0:
+					bad = fmt.Sprintf("%s: different names, compared %d times", desc, compared)
+				default:
+					_, noErr := tp[1].(anil)
+					if same && refuse && noErr {
+						bad = desc + ": the configurations are incompatible and MakeTLSConfig reports no error"
+					}
+					if !(same && refuse) && !noErr {
+						bad = desc + ": rejected: " + describeAval(tp[1])
+					}
+				}
+				if bad != "" {
+					break
+				}
+			}
+			if bad != "" {
+				break
+			}
+		}
+		if bad != "" {
+			break
+		}
+	}
+	r.Check(bad == "", "R6", "caskettls.MakeTLSConfig/same-name-table", fn.Pos(), "sites answering one SNI name are checked against each other before one replaces the other", fmt.Sprintf("%d pairs evaluated", n), bad)
+}
